@@ -13,6 +13,7 @@
 -/
 import OllamaVerif.Properties.C15
 import OllamaVerif.Generated.C15_Accesses
+import OllamaVerif.Tie.C01
 
 namespace OllamaVerif.Tie.C15
 open OllamaVerif.Lockset OllamaVerif.Generated.C15
@@ -32,17 +33,19 @@ theorem bad_classes_exact :
     badClassIds.all ((badClasses accesses).contains ·) = true := by
   constructor <;> decide +kernel
 
-/-- location classes for which the pinned tree is known NOT to follow the discipline, with the
-    finding that explains each (KNOWN_FINDINGS.jsonl, property C15):
-    * F13a `PsHandler` iterates `Scheduler.loaded` and reads runner fields with no lock;
+/-- location classes for which the tree is known NOT to follow the discipline, with the finding
+    that explains each (KNOWN_FINDINGS.jsonl, property C15):
+    * F13e `PsHandler` reads `expiresAt`/`sessionDuration` under `loadedMu` only; they are written
+      under `refMu` only (what is left of F13a after fix fd9f01440);
     * F13b `runnerRef.loading` written under `refMu` only, read under `loadedMu` only;
     * F13c `ByDurationAndName.Less` reads `sessionDuration` with no lock (writer: `expireRunner`);
     * F21a `CancelFunc` assigned inside the `Run` goroutine, read by `release()`;
     * F21b a transfer is published in the sync.Map before `Prepare` fills `Total`/`done`, and
-      `blobUpload.done/err` are plain fields polled by `Wait`. -/
+      `blobUpload.done/err` are plain fields polled by `Wait`.
+    `Scheduler.loaded`, `runnerRef.model/estimatedTotal/estimatedVRAM` (F13a, fixed) are no longer
+    listed: a change that re-opens them fails `bad_classes_known`. -/
 def knownBadClasses : List String :=
-  [ "Scheduler.loaded", "runnerRef.model", "runnerRef.estimatedTotal", "runnerRef.estimatedVRAM",
-    "runnerRef.expiresAt", "runnerRef.sessionDuration",            -- F13a (+ F13c on sessionDuration)
+  [ "runnerRef.expiresAt", "runnerRef.sessionDuration",            -- F13e (+ F13c on sessionDuration)
     "runnerRef.loading",                                           -- F13b
     "blobDownload.CancelFunc", "blobUpload.CancelFunc",            -- F21a
     "blobDownload.Total", "blobDownload.done", "blobUpload.Total", "blobUpload.done", "blobUpload.err" ] -- F21b
@@ -69,5 +72,57 @@ theorem race_free_good_classes (c : Nat) (hc : c ∈ goodClassIds) (tc : Thread 
   have h := discipline_holds
   rw [List.all_eq_true] at h
   exact lockset_discipline_race_free accesses tc c (h c hc) pre mid post t1 t2 o f1 f2 hsingle hwf hconf hne
+
+/-! ## No use of a torn-down runner ("stale pointer") -/
+
+/-- Lean's evaluation of the stale-read rule over the regenerated table = the translator's -/
+theorem stale_exact :
+    staleReads accesses clearedClassIds 1 registryLockRef objectLockRef = expectedStale := by
+  decide +kernel
+
+/-- **No handler or scheduler path uses a cleared runner field through a stale pointer**: every
+    use of `model` / `llama` / `Options` / `expireTimer` is through a pointer that is still live
+    (registry lock held since the lookup), re-validated under `refMu`, fresh, or held (C01).
+    Seeded change C15-C (PsHandler snapshots under loadedMu, reads under refMu) fails here. -/
+theorem no_stale_reads :
+    staleReads accesses clearedClassIds 1 registryLockRef objectLockRef = [] := by decide +kernel
+
+/-- the guards of the life-cycle semantics' `clear` step hold in the tree: every clearing write
+    holds the runner's own lock, the registry's insert/delete hold the registry lock, and there
+    is something to protect -/
+theorem teardown_locks :
+    clearedClassIds.all (fun c => writesHold accesses c objectLockRef) = true ∧
+    writesHold accesses registryClassId registryLockRef = true ∧
+    hasInsert accesses registryClassId = true ∧
+    (clearedClassIds.filter (fun c => writesHold accesses c registryLockRef)).length ≥ 3 := by
+  refine ⟨by decide +kernel, by decide +kernel, by decide +kernel, by decide +kernel⟩
+
+/-! ## The holder hypothesis (hb 1) is a theorem for the tree's scheduler variant
+
+  Accesses tagged `holder` (the handler's read of `runner.llama` after receiving the runner from
+  `GetRunner`'s channel, vs `unload`) are exempt from the lockset rule under the hypothesis "no
+  unload between the hand-over and the end of the request".  For the variant of the scheduler
+  the working tree implements (`Generated.C01.treeVariant`, regenerated from sched.go and pinned
+  to `Variant.good` by `Tie.C01.tree_variant_good`) that is C01's theorem. -/
+
+open OllamaVerif.Sched in
+/-- a runner handed to a request is open at the hand-over -/
+theorem holder_granted_runner_is_open {mr mq ds : Nat} {s s' : State}
+    (h : Reach OllamaVerif.Generated.C01.treeVariant (Sched.init mr mq ds) s) (a : Act)
+    (hs : step OllamaVerif.Generated.C01.treeVariant s a = some s')
+    (q : ReqId) (r : Rid) (hq : q < s.nReqs) (hbefore : (s.reqs q).gotRunner = none)
+    (hafter : (s'.reqs q).gotRunner = some r) : (s'.runners r).closed = false := by
+  rw [OllamaVerif.Tie.C01.tree_variant_good] at h hs
+  exact OllamaVerif.C01.granted_runner_is_open h a hs q r hq hbefore hafter
+
+open OllamaVerif.Sched in
+/-- and it is not shut down while the request uses it -/
+theorem holder_runner_not_closed_while_used {mr mq ds : Nat} {s : State}
+    (h : Reach OllamaVerif.Generated.C01.treeVariant (Sched.init mr mq ds) s) (r : Rid)
+    (hr : r < s.nRunners) (q : ReqId) (hu : OllamaVerif.C01.uses s q r) :
+    (s.runners r).closed = false := by
+  cases hc : (s.runners r).closed with
+  | false => rfl
+  | true => exact absurd hu (OllamaVerif.Tie.C01.tree_closed_runner_has_no_user h r hr hc q)
 
 end OllamaVerif.Tie.C15
